@@ -5,7 +5,8 @@ CONSTANTS
   Ns = {2, 3, 4}
   Routes = {"seq", "factor", "joint"}
   Offs = {0, 1}
-  CondKinds = {"Cond", "CondDiag"}
+  CondKinds = {"Cond", "CondDiag", "CondId", "CondIdDiag"}
+  IidModes = {FALSE, TRUE}
 INIT Init
 NEXT Next
 CHECK_DEADLOCK FALSE
